@@ -150,6 +150,10 @@ func adversarialNames(r *Rand, n int, reserved []string) []string {
 		// names beyond the 8 bytes of a COFF name field that contain one another (prefix, infix, suffix), longer one first or second
 		{"long_name_alpha", "long_name_alph", "long_name_alpha2", "ong_name_alpha", "long_name", "g_name_al", "long_name_", "xlong_name_alpha"},
 		{"_draw_line_fast", "_draw_line", "w_line_fast", "aw_line_fa", "_draw_line_faster", "draw_line_"},
+		// words that mean something to the machinery a name passes through (text/template actions and functions, Go method names of
+		// the usual container types): to the assembler they are ordinary identifiers
+		{"String", "Names", "Len", "Error", "Keys", "Get", "Value", "Map", "Index", "Format", "GoString"},
+		{"end", "if", "else", "range", "with", "define", "template", "block", "nil", "len", "index", "print", "printf", "html", "slice", "true", "false", "eq", "ne", "lt"},
 	}
 	fam := append([]string{}, fams[r.Intn(len(fams))]...)
 	Shuffle(r, fam)
